@@ -334,10 +334,42 @@ func c02HpkeOpen(p *core.Prog, r *core.Run, rule string) {
 			}
 		}
 		r.Check(rule, "hpke.nextNonce:uses-seq", uses, p.Pos(inc.Pos()), "the nonce is derived from the stored sequence number")
+		// the 128-bit increment itself: the half that is incremented (with carry
+		// into the other) is the half that bytes() puts last, big-endian
+		lowOfInc, lowOfBytes := "", ""
+		okCarry := false
+		if ao := p.Func(HPKE, "(uint128).addOne"); ao != nil {
+			for _, b := range ao.Blocks {
+				for _, in := range b.Instrs {
+					st, ok := in.(*ssa.Store)
+					if !ok {
+						continue
+					}
+					a, v := p.X(st.Addr), p.X(st.Val)
+					if a.Op != "field" {
+						continue
+					}
+					if v.Op == "ext" && v.Name == "#0" && v.Args[0].Name == "math/bits.Add64" && len(v.Args[0].Args) == 3 && v.Args[0].Args[0].Op == "field" && v.Args[0].Args[0].Name == a.Name && v.Args[0].Args[1].Name == "1" && v.Args[0].Args[2].Name == "0" {
+						lowOfInc = a.Name
+					}
+					if v.Op == "bin" && v.Name == "+" && v.Args[0].Op == "field" && v.Args[0].Name == a.Name && v.Args[1].Op == "ext" && v.Args[1].Name == "#1" && v.Args[1].Args[0].Name == "math/bits.Add64" {
+						okCarry = true
+					}
+				}
+			}
+		}
+		if by := p.Func(HPKE, "(uint128).bytes"); by != nil {
+			for _, s := range callSites(p, []*ssa.Function{by}, `.*BEPutUint64`) {
+				if dst := s.X.Args[0]; dst.Op == "slice" && dst.Args[1].Name == "8" && s.X.Args[1].Op == "field" {
+					lowOfBytes = s.X.Args[1].Name
+				}
+			}
+		}
+		r.Check(rule, "hpke.uint128:increment", lowOfInc != "" && lowOfInc == lowOfBytes && okCarry, p.Pos(inc.Pos()), "the sequence number is incremented in its low half (field %q, the one bytes() encodes last: %q) with the carry added to the other half (%v); a swapped pair makes the second nonce 2^64 instead of 1", lowOfInc, lowOfBytes, okCarry)
 	} else {
 		r.Undecided(rule, "hpke.incrementNonce", p.Pos(fn.Pos()), "incrementNonce not found")
 	}
-	r.Floor(rule, 9)
+	r.Floor(rule, 10)
 }
 
 // c02ErrDiscipline: every call with an error result has that result used.
